@@ -50,7 +50,7 @@ def controller_fn(writes, fired):
 
 def std_case(rng, profile):
     spec = gen_spec(rng, profile)
-    case = {"spec": spec, "partition": rng.choice(profile.get("partitions", ["ones", "small", "mixed", "large", "all"])),
+    case = {"spec": spec, "partition": rng.choice(profile.get("partitions", ["ones", "small", "medium", "mixed", "large", "all"])),
             "part_seed": rng.getrandbits(32), "controller": gen_controller(rng, spec),
             "first_call_init": rng.random() < 0.3}
     return case
